@@ -12,7 +12,7 @@ use tonic::metadata::{KeyAndValueRef, MetadataKey, MetadataMap, MetadataValue};
 use tonic::{Code, Status};
 
 pub fn headers_json(h: &http::HeaderMap) -> Value {
-    Value::Array(h.iter().map(|(k, v)| json!({"n": k.as_str(), "v": bytes_json(v.as_bytes())})).collect())
+    Value::Array(h.iter().map(|(k, v)| json!({"n": k.as_str(), "nb": bytes_json(k.as_str().as_bytes()), "v": bytes_json(v.as_bytes())})).collect())
 }
 pub fn meta_json(m: &MetadataMap) -> Value {
     Value::Array(m.iter().map(|kv| match kv {
